@@ -54,6 +54,11 @@ CLAIMED = {
         ref='4/C20'),
 }
 
+CLAIMED['C19'] = dict(
+    text='Tiling logic of the highlighter under the parsers\' offset contract: transplants of append_span / skip_ahead / highlight_word_piece / the token loop body / highlight_program on a duck-typed highlighter whose span list checks the invariant incrementally. One inductive step per word-piece kind (11 kinds, nested quoted sequences and command substitutions via the induction hypothesis) and per token, plus the frame of highlight_program: for every token / piece layout with in-order, in-range offsets the spans are ordered, contiguous, non-empty and end exactly at the end of the line. Whole-line runs with 1-2 tokens are in the thorough tier.',
+    note='Outside: the offsets the tokenizer and word::parse actually produce (PEG / tokenizer: not encodable), multi-byte text (character vs byte offsets come from the tokenizer), termination of the parsers. Lines are ASCII stand-ins.',
+    ref='9')
+
 NOT_APPLICABLE = {
     'C04': 'Every kernel is a string transformer (split_fields, double-quote processing, regex escaping, word::parse); one symbolic byte through split_fields does not finish in 600 s under CBMC (DESIGN 2, 4/C04).',
     'C05': 'Brace expansion, word::parse, glob translation and directory walking: three PEG grammars, strings and the filesystem - not encodable within reach (DESIGN 4/C05).',
@@ -62,7 +67,6 @@ NOT_APPLICABLE = {
     'C13': 'String in, string out: one symbolic byte through single_quote / ansi_c_quote plus a reader times out at 600 s; even the octal formatter alone does not finish (DESIGN 4/C13).',
     'C14': 'Needs parse(print(ast)): tokenizer and program grammar on partly symbolic text (DESIGN 4/C14).',
     'C15': 'Completeness decision and caches sit on the tokenizer / PEG; the `cached` crate triggers a Kani ICE (DESIGN 4/C15).',
-    'C19': 'Span construction depends on tokenizer/word-parser offsets and Vec growth under symbolic conditions; with both parsers replaced by oracles the highlighter still did not finish in 900 s (DESIGN 4/C19).',
 }
 
 NOT_BUILT = 'claimed in DESIGN.md but its check is not built yet in this revision; not claimed until it is'
